@@ -249,7 +249,7 @@ def canon_value(op, r):
     return "other:" + repr(r)[:100]
 
 
-SOCK_CODES = {"timeout": 1, "reset": 2, "refused": 3, "pipe": 4, "oserror": 5, "gaierror": 6, "valueerror": 7,
+SOCK_CODES = {"timeout": 1, "reset": 2, "refused": 3, "pipe": 4, "oserror": 5, "eintr": 5, "gaierror": 6, "valueerror": 7,
               "kbd": 100, "sysexit": 101, "interrupt": 102}
 
 
